@@ -331,12 +331,86 @@ func c16Scenario(p c16Params) *explore.Scenario {
 	return sc
 }
 
+// c16TrackingRaceScenario: the one way to make the built-in 001 handler panic is to switch state tracking off
+// between two of its statements (the library does not synchronise the two). Whether it panics or not, CONNECTED
+// and every later event are delivered. Statement-granularity scheduling on Conn while the welcome is processed.
+func c16TrackingRaceScenario(custom bool) *explore.Scenario {
+	sc := &explore.Scenario{
+		Family: "misbehave",
+		Name:   fmt.Sprintf("misbehave/builtin-001-vs-DisableStateTracking/custom=%v", custom),
+		Params: map[string]interface{}{"who": "builtin-001-race", "custom": custom},
+		Opt:    vx.Options{MaxSteps: 100000, StmtMode: true},
+	}
+	sc.Main = func(env *vx.Env) {
+		c := NewClient("me", func(cfg *client.Config) {
+			if custom {
+				cfg.Recover = func(conn *client.Conn, line *client.Line) {
+					if r := recover(); r != nil {
+						vx.Observe("ev", "recovered cmd="+line.Cmd)
+					}
+				}
+			}
+		})
+		c.EnableStateTracking()
+		c.HandleFunc(client.CONNECTED, func(conn *client.Conn, line *client.Line) { vx.Observe("ev", "CONNECTED") })
+		c.HandleFunc("PRIVMSG", func(conn *client.Conn, line *client.Line) { vx.Observe("ev", "good fg "+line.Text()) })
+		c.HandleBG("PRIVMSG", client.HandlerFunc(func(conn *client.Conn, line *client.Line) { vx.Observe("ev", "good bg "+line.Text()) }))
+		var vc *vx.Conn
+		env.ConnSetup = func(x *vx.Conn) { vc = x }
+		if err := c.Connect(); err != nil {
+			return
+		}
+		vx.Quiesce()
+		vx.StmtMode(true)
+		done := vx.NewEvent("racer-done")
+		env.Go("racer", func() {
+			c.DisableStateTracking()
+			done.Set()
+		})
+		vc.SendLines(welcome)
+		done.Wait()
+		vx.Quiesce()
+		vx.StmtMode(false)
+		vc.SendLines(":o!u@h PRIVMSG #c :e0", ":o!u@h PRIVMSG #c :e1", "PING :still-alive")
+		vx.Quiesce()
+		vx.Observe("ev", fmt.Sprintf("end connected=%v", c.Connected()))
+		vc.EOF()
+		vx.Quiesce()
+	}
+	sc.Check = func(o *vx.Outcome) []explore.Finding {
+		if fs := stdOutcome(o); fs != nil {
+			return fs
+		}
+		ev := o.Log("ev")
+		var fs []explore.Finding
+		bad := func(id, msg string) {
+			fs = append(fs, explore.Finding{Oracle: id, Msg: msg + " :: " + strings.Join(ev, "; ")})
+		}
+		if n := count(ev, "CONNECTED"); n != 1 {
+			bad("later-event-not-delivered", fmt.Sprintf("CONNECTED was delivered %d times after the welcome (the built-in 001 handler may have panicked; that must not matter)", n))
+		}
+		for _, e := range []string{"e0", "e1"} {
+			if count(ev, "good fg "+e) != 1 || count(ev, "good bg "+e) != 1 {
+				bad("later-event-not-delivered", "event "+e+" after the welcome did not reach both user handlers once")
+			}
+		}
+		if count(ev, "end connected=true") != 1 || !HasLine(o.Conns[0].Lines(), "PONG :still-alive") {
+			bad("connection-dropped", "the connection is not alive and responsive after the welcome")
+		}
+		if l := ClientLeaks(o); len(l) > 0 {
+			bad("leak", "tasks left at the end: "+strings.Join(l, " | "))
+		}
+		return fs
+	}
+	return sc
+}
+
 func init() {
 	Register(&Prop{
 		ID:   "C16",
 		Rule: "event sequences of 2-4 PRIVMSGs with three foreground and two background user handlers; at one event one handler misbehaves: user foreground / user background panics with a string, error or struct value or a nil pointer whose Error / String method would panic, a built-in handler (PING without token, 433 without arguments, CAP with one argument) panics on its own input, or a background handler blocks for ever (next to a well-behaved one, or alone on its verb); default LogPanic or a custom recovery hook (set in the Config given to Client, or through Config() after all handlers are registered); optionally a foreground handler that registers a background handler at every event and removes the previous one; every execution within the deviation budgets; distinct = distinct canonical observation per scenario",
 		Assumptions: []string{
-			"interleavings at synchronisation/channel/socket granularity (DESIGN.md 3.8)",
+			"interleavings at synchronisation/channel/socket granularity (DESIGN.md 3.8); statement granularity on Conn in the one scenario that races DisableStateTracking() against the built-in 001 handler",
 			"panic(nil) is left out: its meaning depends on the module's go directive, which the instrumented copy changes",
 		},
 		Jobs: func(tier string) []Job {
@@ -391,6 +465,9 @@ func init() {
 			add(c16Params{Who: "bg-block", At: 0, Value: "none", NEvents: 3, LoneBG: true})
 			add(c16Params{Who: "bg-block-all", At: 0, Value: "none", NEvents: 3, LoneBG: true})
 			add(c16Params{Who: "bg", At: 0, Value: "string", NEvents: 2, LoneBG: true})
+			for _, custom := range []bool{false, true} {
+				jobs = append(jobs, ExploreJob("C16", ExploreSpec{Sc: c16TrackingRaceScenario(custom), Variants: []int{1, 2, 3}, Budgets: []explore.Budget{{0, 0}, {1, 0}, {2, 0}}, Cache: true}, 40))
+			}
 			add(c16Params{Who: "bg-block", At: 0, Value: "none", NEvents: 2})
 			add(c16Params{Who: "bg-block", At: 0, Value: "none", NEvents: 3})
 			add(c16Params{Who: "bg-block", At: 1, Value: "none", Custom: true, NEvents: 3})
